@@ -136,6 +136,8 @@ Lemma main_stops_snoc tr t e :
 Proof.
   unfold main_stops. rewrite flat_map_app. f_equal. simpl. rewrite app_nil_r. reflexivity.
 Qed.
+Lemma forallb_map' {A B} (f : A -> B) (p : B -> bool) l : forallb p (map f l) = forallb (fun x => p (f x)) l.
+Proof. induction l as [|a l IH]; simpl; [reflexivity | rewrite IH; reflexivity]. Qed.
 Lemma forallb_snoc {A} (p : A -> bool) l x : forallb p (l ++ [x]) = forallb p l && p x.
 Proof. rewrite forallb_app. simpl. rewrite andb_true_r. reflexivity. Qed.
 
@@ -208,10 +210,14 @@ Section Stream.
     sv_deliv : forall w, map to3 (delivered w (s_log c)) ++ ev_of (fw w (pend_status c)) = ev_of (fw w (gotten (s_log c)));
     sv_ts : forall w, forallb (fun x => snd (fst x)) (delivered w (s_log c)) = true;
     sv_joins : joins (s_log c) ++ pend_join c = stopsq (gotten (s_log c));
-    sv_pend_is_status : forall q, s_main c = SMStatus q -> exists w id st own, q = QStatus w id st own;
+    sv_pend : match s_main c with
+              | SMStatus q => exists w id st own, q = QStatus w id st own /\ w < length (s_workers c)
+              | SMJoin w => w < length (s_workers c)
+              | _ => True
+              end;
     sv_phase :
       match s_main c with
-      | SMSpawn j => j = length (s_workers c) /\ j < K /\ gotten (s_log c) = [] /\ s_queue c = s_queue c
+      | SMSpawn j => j = length (s_workers c) /\ j < K /\ gotten (s_log c) = []
       | SMDone =>
           s_raised c = raise_expected (s_log c)
           /\ s_stops c = (if s_raised c then unreaped_of K (joins (s_log c)) else [])
@@ -227,4 +233,357 @@ Section Stream.
              /\ s_unreaped c = unreaped_of (length (s_workers c)) (stopsq (gotten (s_log c)))
       end
   }.
+
+  Ltac rd := unfold slog; rewrite ?putsq_snoc, ?gotten_snoc, ?spawns_snoc, ?joins_snoc, ?delivered_snoc,
+               ?has_intr_snoc, ?status_raised_snoc, ?forallb_snoc; simpl; rewrite ?app_nil_r, ?orb_false_r.
+
+  Lemma unreaped_of_nil k : unreaped_of k [] = seq 0 k.
+  Proof. unfold unreaped_of. induction (seq 0 k) as [|x l IH]; simpl; [reflexivity | f_equal; exact IH]. Qed.
+
+  Lemma unreaped_of_snoc k l : unreaped_of (S k) l = unreaped_of k l ++ (if memb k l then [] else [k]).
+  Proof.
+    unfold unreaped_of. rewrite seq_S, filter_app. simpl. destruct (memb k l); reflexivity.
+  Qed.
+
+  (* what is known right after k workers have been started and nothing else has happened in main *)
+  Lemma after_spawn_inv c k :
+    length (s_workers c) = k -> k <= n -> (forall m, si_mt_raise i = Some m -> k <= m) ->
+    spawns (s_log c) = seq 0 k ->
+    forallb (own_thread K) (s_log c) = true ->
+    (forall w todo, nth_error (s_workers c) w = Some todo ->
+        exists s, nth_error (si_suites i) w = Some s /\ fw w (putsq (s_log c)) ++ todo = worker_puts w base s) ->
+    (forall w, fw w (gotten (s_log c) ++ s_queue c) = fw w (putsq (s_log c))) ->
+    Forall (fun q => qowner q < k) (gotten (s_log c) ++ s_queue c) ->
+    gotten (s_log c) = [] -> (forall w, delivered w (s_log c) = []) -> joins (s_log c) = [] ->
+    has_intr (s_log c) = false -> status_raised (s_log c) = false ->
+    s_raised c = false -> s_stops c = [] -> s_unreaped c = seq 0 k ->
+    SInv (safter_spawn i c k).
+  Proof.
+    intros HL Hkn Hmt Hsp Hown Hw Hfifo Hq Hg Hd Hj Hi Hs Hr Hst Hu.
+    assert (HK : k <= K).
+    { unfold K, started. destruct (si_mt_raise i) as [m|] eqn:E; [specialize (Hmt m eq_refl); lia | exact Hkn]. }
+    unfold safter_spawn.
+    destruct (option_eqb Nat.eqb (si_mt_raise i) (Some k)) eqn:Emt.
+    - (* make_tests raises *)
+      apply (option_eqb_spec _ Nat.eqb_eq) in Emt.
+      assert (EK : K = k) by (unfold K, started; rewrite Emt; lia).
+      unfold sabort, sfinish. constructor; simpl; try assumption; try lia; try exact I.
+      + rewrite HL; exact Hsp.
+      + rewrite HL; exact Hq.
+      + intro w. rewrite Hd, Hg. reflexivity.
+      + intro w. rewrite Hd. reflexivity.
+      + rewrite Hj, Hg. reflexivity.
+      + unfold raise_expected, mt_raises. fold n. rewrite Emt, Hi, Hs.
+        replace (k <=? n) with true by (symmetry; apply Nat.leb_le; exact Hkn). simpl.
+        rewrite Hj, Hu, EK, unreaped_of_nil, map_length, HL. repeat split; discriminate.
+    - assert (Hne : si_mt_raise i <> Some k).
+      { intro E. rewrite E in Emt. simpl in Emt. rewrite Nat.eqb_refl in Emt. discriminate. }
+      destruct (k <? length (si_suites i)) eqn:Elt.
+      + (* next sub-suite *)
+        apply Nat.ltb_lt in Elt. fold n in Elt.
+        assert (HK' : k < K).
+        { unfold K, started. destruct (si_mt_raise i) as [m|] eqn:E; [|exact Elt].
+          specialize (Hmt m eq_refl). assert (m <> k) by congruence. lia. }
+        unfold sset_main. constructor; simpl; try assumption; try lia; try exact I.
+        * rewrite HL; exact Hsp.
+        * rewrite HL; exact Hq.
+        * intro w. rewrite Hd, Hg. reflexivity.
+        * intro w. rewrite Hd. reflexivity.
+        * rewrite Hj, Hg. reflexivity.
+        * repeat split; auto.
+        * rewrite Hg, HL. simpl. rewrite unreaped_of_nil. repeat split; assumption.
+      + (* all started *)
+        apply Nat.ltb_ge in Elt. fold n in Elt. assert (Ekn : k = n) by lia.
+        assert (EK : K = k).
+        { unfold K, started. destruct (si_mt_raise i) as [m|] eqn:E; [specialize (Hmt m eq_refl); lia | lia]. }
+        assert (Hnr : mt_raises n (si_mt_raise i) = false).
+        { unfold mt_raises. destruct (si_mt_raise i) as [m|] eqn:E; [|reflexivity].
+          specialize (Hmt m eq_refl). assert (m <> k) by congruence. apply Nat.leb_gt. lia. }
+        destruct (s_unreaped c) as [|u us] eqn:Eu.
+        * (* no sub-suites at all *)
+          assert (Hk0 : k = 0) by (rewrite <- (seq_length k 0), <- Hu; reflexivity).
+          unfold sfinish. constructor; simpl; try assumption; try lia; try exact I.
+          -- rewrite HL; exact Hsp.
+          -- rewrite HL; exact Hq.
+          -- intro w. rewrite Hd, Hg. reflexivity.
+          -- intro w. rewrite Hd. reflexivity.
+          -- rewrite Hj, Hg. reflexivity.
+          -- unfold raise_expected. rewrite Hnr, Hi, Hs. simpl. rewrite map_length. repeat split; try lia.
+             intros _. destruct (s_workers c); [reflexivity | simpl in HL; lia].
+        * unfold sset_main. constructor; simpl; try assumption; try lia; try exact I.
+          -- rewrite HL; exact Hsp.
+          -- rewrite HL; exact Hq.
+          -- intro w. rewrite Hd, Hg. reflexivity.
+          -- intro w. rewrite Hd. reflexivity.
+          -- rewrite Hj, Hg. reflexivity.
+          -- repeat split; auto; try lia. rewrite Eu; discriminate.
+          -- rewrite Hg, HL. simpl. rewrite unreaped_of_nil, <- Hu, Eu. repeat split; auto.
+  Qed.
+
+  Lemma sinit_inv : SInv (sinit i).
+  Proof.
+    unfold sinit. apply after_spawn_inv; simpl; try reflexivity; try lia; try constructor.
+    intros w todo H. destruct w; discriminate.
+  Qed.
+
+  Lemma nth_error_snoc {A} (l : list A) x w y : nth_error (l ++ [x]) w = Some y ->
+    (w < length l /\ nth_error l w = Some y) \/ (w = length l /\ y = x).
+  Proof.
+    intro H. destruct (Nat.lt_ge_cases w (length l)) as [Hlt|Hge].
+    - rewrite nth_error_app1 in H by exact Hlt. left; auto.
+    - rewrite nth_error_app2 in H by exact Hge. destruct (w - length l) as [|d] eqn:E.
+      + simpl in H. injection H as <-. right. split; [lia | reflexivity].
+      + simpl in H. destruct d; discriminate.
+  Qed.
+
+  Lemma worker_put_owner c w q todo : SInv c -> nth_error (s_workers c) w = Some (q :: todo) ->
+    qowner q = w /\ w < length (s_workers c).
+  Proof.
+    intros HI Hn. destruct (sv_workers c HI w _ Hn) as (s & Hs & E). split.
+    - pose proof (worker_puts_owner w base s) as Ho. rewrite <- E in Ho. apply Forall_app in Ho as [_ Ho].
+      inversion Ho; assumption.
+    - apply nth_error_Some. congruence.
+  Qed.
+
+  (* ---- a worker puts its next item ---- *)
+  Lemma sstep_worker_inv c w c' : SInv c -> sstep_worker c w = Some c' -> SInv c'.
+  Proof.
+    intros HI. unfold sstep_worker. destruct (nth_error (s_workers c) w) as [[|q todo]|] eqn:Hn; try discriminate.
+    intro H; injection H as <-.
+    destruct (worker_put_owner c w q todo HI Hn) as [Hq Hw].
+    pose proof HI as [Hle Hsp Hown Hwk Hfifo Hqo Hdl Hts Hjo Hps Hph Hrun].
+    constructor; simpl; rewrite ?length_upd; try assumption.
+    - rd. exact Hsp.
+    - rd. rewrite Hown. simpl.
+      destruct q; simpl in Hq; subst; rewrite Nat.eqb_refl; simpl; apply Nat.ltb_lt; lia.
+    - intros v todo' Hv. rd. rewrite fw_app. destruct (Nat.eq_dec w v) as [<-|Hne].
+      + rewrite (nth_upd_same _ _ _ _ Hn) in Hv. injection Hv as <-.
+        destruct (Hwk w _ Hn) as (s & Hs & E). exists s. split; [exact Hs|].
+        simpl. rewrite Hq, Nat.eqb_refl. rewrite <- app_assoc. exact E.
+      + rewrite nth_upd_other in Hv by exact Hne. destruct (Hwk v _ Hv) as (s & Hs & E). exists s. split; [exact Hs|].
+        simpl. rewrite Hq. destruct (w =? v) eqn:Ewv; [apply Nat.eqb_eq in Ewv; contradiction|]. rewrite app_nil_r. exact E.
+    - intro v. rd. rewrite app_assoc, fw_app, Hfifo, <- fw_app. reflexivity.
+    - rd. rewrite app_assoc. apply Forall_app. split; [exact Hqo|]. constructor; [lia | constructor].
+    - intro v. rd. exact (Hdl v).
+    - intro v. rd. exact (Hts v).
+    - rd. exact Hjo.
+    - destruct (s_main c); rd; try exact Hph.
+      unfold raise_expected in *. rd. exact Hph.
+    - destruct (s_main c); rd; exact Hrun.
+  Qed.
+
+  Lemma fw_lt_nil k l : Forall (fun q => qowner q < k) l -> fw k l = [].
+  Proof.
+    induction 1 as [|q l Hq Hl IH]; simpl; [reflexivity|].
+    destruct (qowner q =? k) eqn:E; [apply Nat.eqb_eq in E; lia | exact IH].
+  Qed.
+
+  Lemma memb_app x a b : memb x (a ++ b) = memb x a || memb x b.
+  Proof. unfold memb. apply existsb_app. Qed.
+
+  Lemma unreaped_remove k l w : remove_nat w (unreaped_of k l) = unreaped_of k (l ++ [w]).
+  Proof.
+    unfold remove_nat, unreaped_of. induction (seq 0 k) as [|x r IH]; simpl; [reflexivity|].
+    rewrite memb_app. simpl. rewrite orb_false_r.
+    destruct (memb x l); simpl; [exact IH|].
+    rewrite (Nat.eqb_sym x w). destruct (w =? x); simpl; [exact IH | f_equal; exact IH].
+  Qed.
+
+  Lemma unreaped_nil_all k l : unreaped_of k l = [] -> forall v, v < k -> memb v l = true.
+  Proof.
+    unfold unreaped_of. intros H v Hv.
+    assert (Hin : In v (seq 0 k)) by (apply in_seq; lia).
+    destruct (memb v l) eqn:E; [reflexivity|]. exfalso.
+    assert (In v (filter (fun w => negb (memb w l)) (seq 0 k))) by (apply filter_In; rewrite E; auto).
+    rewrite H in H0. contradiction.
+  Qed.
+
+  Lemma stopsq_in v l : memb v (stopsq l) = true -> In (QStop v) l.
+  Proof.
+    induction l as [|q l IH]; simpl; [discriminate|].
+    destruct q; simpl; try (intro H; right; apply IH; exact H).
+    destruct (v =? w) eqn:E; simpl.
+    - apply Nat.eqb_eq in E; subst. intros _. left; reflexivity.
+    - intro H. right. apply IH. exact H.
+  Qed.
+
+  (* a worker whose stopTestRun has been dequeued has nothing left to put *)
+  Lemma popped_done c v todo : SInv c -> In (QStop v) (gotten (s_log c)) -> nth_error (s_workers c) v = Some todo -> todo = [].
+  Proof.
+    intros HI Hin Hn. destruct (sv_workers c HI v _ Hn) as (s & Hs & E).
+    apply (stop_is_last v base s _ _ E). rewrite <- (sv_fifo c HI v), fw_app. apply in_or_app. left.
+    apply filter_In. split; [exact Hin | simpl; apply Nat.eqb_refl].
+  Qed.
+
+  (* ---- main: start the next worker ---- *)
+  Lemma sstep_spawn_inv c j c' : SInv c -> s_main c = SMSpawn j -> sstep_main i c = Some c' -> SInv c'.
+  Proof.
+    intros HI Em. unfold sstep_main. rewrite Em.
+    destruct (nth_error (si_suites i) j) as [s|] eqn:Es; [|discriminate]. intro H; injection H as <-.
+    pose proof HI as [Hle Hsp Hown Hwk Hfifo Hqo Hdl Hts Hjo Hps Hph Hrun].
+    rewrite Em in Hph, Hrun. destruct Hph as (Hj & HjK & Hg). destruct Hrun as (Hr & Hst & Hi & Hsr & Hu).
+    assert (Hjn : j < n) by (apply nth_error_Some; congruence).
+    assert (Hfj : fw j (putsq (s_log c)) = []).
+    { rewrite <- Hfifo. apply fw_lt_nil. rewrite Hj. exact Hqo. }
+    assert (Hdn : forall w, delivered w (s_log c) = []).
+    { intro w. specialize (Hdl w). rewrite Hg in Hdl. simpl in Hdl. apply app_eq_nil in Hdl as [Hd _].
+      destruct (delivered w (s_log c)); [reflexivity | discriminate]. }
+    assert (Hjn0 : joins (s_log c) = []).
+    { rewrite Hg in Hjo. simpl in Hjo. apply app_eq_nil in Hjo as [Hd _]. exact Hd. }
+    apply after_spawn_inv; simpl.
+    - rewrite app_length. simpl. lia.
+    - lia.
+    - intros m Hm. unfold K, started in HjK. rewrite Hm in HjK. lia.
+    - rd. change (0 :: seq 1 j) with (seq 0 (S j)). rewrite Hsp, seq_S, <- Hj. reflexivity.
+    - rd. rewrite Hown. simpl. apply Nat.ltb_lt. exact HjK.
+    - intros w todo Hn. rd. apply nth_error_snoc in Hn as [[Hlt Hn]|[-> ->]].
+      + apply Hwk. exact Hn.
+      + exists s. rewrite <- Hj. split; [exact Es|]. rewrite Hfj. reflexivity.
+    - intro w. rd. apply Hfifo.
+    - rd. eapply Forall_impl; [|exact Hqo]. simpl. intros q Hq. lia.
+    - rd. exact Hg.
+    - intro w. rd. apply Hdn.
+    - rd. exact Hjn0.
+    - rd. exact Hi.
+    - rd. exact Hsr.
+    - exact Hr.
+    - exact Hst.
+    - change (0 :: seq 1 j) with (seq 0 (S j)). rewrite Hu, Hg, <- Hj. simpl stopsq. rewrite unreaped_of_nil, seq_S. reflexivity.
+  Qed.
+
+  (* ---- main: queue.get() ---- *)
+  Lemma sstep_get_inv c c' : SInv c -> s_main c = SMGet -> sstep_main i c = Some c' -> SInv c'.
+  Proof.
+    intros HI Em. unfold sstep_main. rewrite Em.
+    pose proof HI as [Hle Hsp Hown Hwk Hfifo Hqo Hdl Hts Hjo Hps Hph Hrun].
+    rewrite Em in Hph, Hrun. destruct Hph as (HwK & HKn & Hmt & Hune). destruct Hrun as (Hr & Hst & Hi & Hsr & Hu).
+    unfold pend_status, pend_join in *. rewrite Em in Hdl, Hjo. rewrite app_nil_r in Hjo.
+    assert (Hdl' : forall w, map to3 (delivered w (s_log c)) = ev_of (fw w (gotten (s_log c))))
+      by (intro w0; specialize (Hdl w0); simpl in Hdl; rewrite app_nil_r in Hdl; exact Hdl).
+    destruct (option_eqb Nat.eqb (si_get_intr i) (Some (s_gets c))).
+    - (* interrupted *)
+      intro H; injection H as <-. unfold sabort, sfinish. constructor; simpl; try assumption; try exact I.
+      all: try (rd; rewrite ?app_nil_r; exact Hjo).
+      + rd. exact Hsp.
+      + rd. rewrite Hown. reflexivity.
+      + intros w todo Hn. rd. apply Hwk. exact Hn.
+      + intro w. rd. apply Hfifo.
+      + rd. exact Hqo.
+      + intro w. rd. apply Hdl'.
+      + intro w. rd. apply Hts.
+      + unfold raise_expected. rd. rewrite map_length.
+        repeat split; auto; try discriminate.
+        * destruct (mt_raises n (si_mt_raise i)), (has_intr (s_log c)), (status_raised (s_log c)); reflexivity.
+        * rewrite Hu, Hjo, HwK. reflexivity.
+    - destruct (s_queue c) as [|q rest] eqn:Eq; [discriminate|]. intro H; injection H as <-.
+      assert (Hqlt : qowner q < length (s_workers c)).
+      { apply Forall_app in Hqo as [_ Hqo]. inversion Hqo; assumption. }
+      constructor; simpl; try assumption.
+      + rd. exact Hsp.
+      + rd. rewrite Hown. reflexivity.
+      + intros w todo Hn. rd. apply Hwk. exact Hn.
+      + intro w. rd. rewrite <- app_assoc. simpl. apply Hfifo.
+      + rd. rewrite <- app_assoc. simpl. exact Hqo.
+      + intro w. rd. rewrite fw_app, ev_of_app, <- Hdl'. f_equal.
+        unfold pend_status. simpl. destruct q as [w0|w0|w0|w0 i0 s0 o0]; simpl; destruct (w0 =? w); reflexivity.
+      + intro w. rd. apply Hts.
+      + rd. rewrite stopsq_app, <- Hjo. unfold pend_join. simpl. destruct q; simpl; rewrite ?app_nil_r; reflexivity.
+      + destruct q; simpl in *; try exact I; try exact Hqlt. eauto 8.
+      + destruct q; simpl; repeat split; auto.
+      + rd. rewrite stopsq_app. destruct q; simpl; rewrite ?app_nil_r; repeat split; auto.
+        rewrite Hu. apply unreaped_remove.
+  Qed.
+
+  (* ---- main: result.status(...) ---- *)
+  Lemma sstep_status_inv c q c' : SInv c -> s_main c = SMStatus q -> sstep_main i c = Some c' -> SInv c'.
+  Proof.
+    intros HI Em. unfold sstep_main. rewrite Em.
+    pose proof HI as [Hle Hsp Hown Hwk Hfifo Hqo Hdl Hts Hjo Hps Hph Hrun].
+    rewrite Em in Hph, Hrun, Hps. destruct Hph as (HwK & HKn & Hmt & Hune). destruct Hrun as (Hr & Hst & Hi & Hsr & Hu).
+    destruct Hps as (w & id & st & own & -> & Hw).
+    unfold pend_status, pend_join in *. rewrite Em in Hdl, Hjo. rewrite app_nil_r in Hjo.
+    intro H; injection H as <-.
+    assert (HD : forall v, map to3 (delivered v (s_log c) ++ (if w =? v then [(id, st, own, true, memb (s_mcalls c) (si_main_faults i))] else []))
+                 = ev_of (fw v (gotten (s_log c)))).
+    { intro v. rewrite map_app, <- Hdl. f_equal. simpl. destruct (w =? v); reflexivity. }
+    destruct (memb (s_mcalls c) (si_main_faults i)) eqn:Eb.
+    - (* the caller's result raises *)
+      unfold sabort, sfinish. constructor; simpl; try assumption; try exact I.
+      all: try (rd; rewrite ?app_nil_r; exact Hjo).
+      + rd. exact Hsp.
+      + rd. rewrite Hown. simpl. apply Nat.ltb_lt. lia.
+      + intros v todo Hn. rd. apply Hwk. exact Hn.
+      + intro v. rd. apply Hfifo.
+      + rd. exact Hqo.
+      + intro v. rd. rewrite ?app_nil_r. apply HD.
+      + intro v. rd. rewrite forallb_app, Hts. destruct (w =? v); reflexivity.
+      + unfold raise_expected. rd. rewrite map_length.
+        repeat split; auto; try discriminate.
+        * destruct (mt_raises n (si_mt_raise i)), (has_intr (s_log c)), (status_raised (s_log c)); reflexivity.
+        * rewrite Hu, Hjo, HwK. reflexivity.
+    - constructor; simpl; try assumption; try exact I.
+      all: try (rd; rewrite ?app_nil_r; exact Hjo).
+      + rd. exact Hsp.
+      + rd. rewrite Hown. simpl. apply Nat.ltb_lt. lia.
+      + intros v todo Hn. rd. apply Hwk. exact Hn.
+      + intro v. rd. apply Hfifo.
+      + rd. exact Hqo.
+      + intro v. rd. rewrite ?app_nil_r. apply HD.
+      + intro v. rd. rewrite forallb_app, Hts. destruct (w =? v); reflexivity.
+      + repeat split; auto.
+      + rd. repeat split; auto.
+  Qed.
+
+  (* ---- main: thread.join() ---- *)
+  Lemma sstep_join_inv c w c' : SInv c -> s_main c = SMJoin w -> sstep_main i c = Some c' -> SInv c'.
+  Proof.
+    intros HI Em. unfold sstep_main. rewrite Em.
+    destruct (nth_error (s_workers c) w) as [todo|] eqn:En; [|discriminate].
+    destruct (sw_done todo) eqn:Ed; [|discriminate]. intro H; injection H as <-.
+    pose proof HI as [Hle Hsp Hown Hwk Hfifo Hqo Hdl Hts Hjo Hps Hph Hrun].
+    rewrite Em in Hph, Hrun, Hps. destruct Hph as (HwK & HKn & Hmt & _). destruct Hrun as (Hr & Hst & Hi & Hsr & Hu).
+    unfold pend_status, pend_join in *. rewrite Em in Hdl, Hjo.
+    assert (Hdl' : forall w, map to3 (delivered w (s_log c)) = ev_of (fw w (gotten (s_log c))))
+      by (intro w0; specialize (Hdl w0); simpl in Hdl; rewrite app_nil_r in Hdl; exact Hdl).
+    simpl. destruct (s_unreaped c) as [|u us] eqn:Eu.
+    - (* the last one: run() returns *)
+      unfold sfinish. constructor; simpl; try assumption; try exact I.
+      all: try (rd; rewrite ?app_nil_r; exact Hjo).
+      + rd. exact Hsp.
+      + rd. rewrite Hown. simpl. apply Nat.ltb_lt. lia.
+      + intros v todo' Hn. rd. apply Hwk. exact Hn.
+      + intro v. rd. apply Hfifo.
+      + rd. exact Hqo.
+      + intro v. rd. apply Hdl'.
+      + intro v. rd. apply Hts.
+      + unfold raise_expected. rd. rewrite Hmt, Hi, Hsr. simpl. rewrite map_length. repeat split; auto.
+        intros _. rewrite forallb_map'. apply forallb_forall. intros todo' Hin. rewrite negb_involutive.
+        apply In_nth_error in Hin as [v Hv].
+        assert (Hvk : v < length (s_workers c)) by (apply nth_error_Some; congruence).
+        symmetry in Hu. pose proof (unreaped_nil_all _ _ Hu v Hvk) as Hm.
+        apply stopsq_in in Hm. rewrite (popped_done c v todo' HI Hm Hv). reflexivity.
+    - unfold sset_main. constructor; simpl; try assumption; try exact I.
+      all: try (rd; rewrite ?app_nil_r; exact Hjo).
+      + rd. exact Hsp.
+      + rd. rewrite Hown. simpl. apply Nat.ltb_lt. lia.
+      + intros v todo' Hn. rd. apply Hwk. exact Hn.
+      + intro v. rd. apply Hfifo.
+      + rd. exact Hqo.
+      + intro v. rd. apply Hdl'.
+      + intro v. rd. apply Hts.
+      + repeat split; auto. discriminate.
+      + rd. repeat split; auto.
+  Qed.
+
+  Lemma sstep_inv c t c' : SInv c -> sstep i c t = Some c' -> SInv c'.
+  Proof.
+    intros HI. destruct t as [|w]; simpl.
+    - destruct (s_main c) eqn:Em.
+      + eapply sstep_spawn_inv; eauto.
+      + eapply sstep_get_inv; eauto.
+      + eapply sstep_status_inv; eauto.
+      + eapply sstep_join_inv; eauto.
+      + unfold sstep_main. rewrite Em. discriminate.
+    - eapply sstep_worker_inv; eauto.
+  Qed.
 End Stream.
